@@ -141,6 +141,9 @@ def write_evidence(ctx, out, nviol, kf_seen):
     }
     # X.. = checks beyond the listed properties: their evidence is kept apart from evidence/<property id>.json
     edir = os.path.join(VERIF, "evidence_extra" if ctx.prop.startswith("X") else "evidence")
+    if os.path.realpath(__import__("harness").REPO) != "/" + "repo":
+        # a scratch tree selected with VERIF_REPO (seeded / benign change experiments): never touch the committed evidence
+        edir = os.path.join(VERIF, ".work", "evidence_scratch")
     os.makedirs(edir, exist_ok=True)
     with open(os.path.join(edir, ctx.prop + ".json"), "w") as fh:
         json.dump(ev, fh, indent=1, default=str)
